@@ -122,7 +122,12 @@ def eval_criteria(crit, env, current_raw=None):
         return True
     if isinstance(crit, ir.BoolExpr):
         return eval_bool(crit.expr, env)
-    return all([eval_comparison(c, env, current_raw) for c in crit])
+    # a conjunction is false as soon as one comparison is false: comparisons after it are not looked at (so a later
+    # comparison that refers to a parameter this packet does not carry cannot turn "false" into an error)
+    for c in crit:
+        if not eval_comparison(c, env, current_raw):
+            return False
+    return True
 
 
 def eval_lookup(lk: ir.Lookup, env):
